@@ -718,10 +718,12 @@ def execute_generic(prop, scenario, params, streams=None):
                     return gen.gen_session(hist, m, params, si)
 
             pre08 = oracles.c08_pre(mt) if prop == "C08" else None
+            pre18 = oracles.c18_pre(world) if prop == "C18" else None
             sess = driver.run_session(
                 world, model, sdesc, prop, si, gen_cb=gen_cb, check_shape=lambda m, sd: gen.shape_ok(m, sd, params) and gen.ops_allowed(m, sd)
             )
             sess.c08_pre = pre08
+            sess.c18_pre = pre18
             if sdesc is None:
                 scenario["sessions"].append(sess.desc)
             stats["sessions"] += 1
@@ -731,6 +733,11 @@ def execute_generic(prop, scenario, params, streams=None):
             stats["patch_invocations"] += len(sess.captures)
             for k, v in sess.fired.items():
                 stats["fault." + k] += v
+            if sess.error is not None and type(sess.error).__name__ == "PaddingError":
+                # documented failure: the ABI's nop does not fit into the
+                # padding an alignment requirement asks for (4-byte nops)
+                stats["probe.padding_error"] += 1
+                raise core.Rejected("PaddingError: " + str(sess.error))
             if sess.error is not None:
                 stats["apply_raised"] += 1
                 raise core.Violation(
@@ -803,6 +810,8 @@ def _op_str(op):
         return f"insfn {op['name']}: " + _patch_str(op["patch"])
     if k == "reg":
         return f"reg {json.dumps(op['scope'])}: " + _patch_str(op["patch"])
+    if k == "retarget":
+        return f"retarget {op['a']} -> {op['b']}"
     return json.dumps(op)[:80]
 
 
@@ -901,7 +910,7 @@ def _referenced_labels(sc):
     def walk(x):
         if isinstance(x, dict):
             for k, v in x.items():
-                if k in ("t", "t2", "a_sym", "b_sym", "name") and isinstance(v, str):
+                if k in ("t", "t2", "a", "b", "name") and isinstance(v, str):
                     used.add(v)
                 walk(v)
         elif isinstance(x, list):
@@ -922,6 +931,8 @@ def _referenced_labels(sc):
                             used.add(d[2])
     for f in sc["module"].get("funcs", {}).values():
         used.add(f["name"])
+    for a, b in sc["module"].get("symbol_forwarding", []):
+        used.update([a, b])
     return used
 
 
